@@ -275,8 +275,9 @@ TypeOK ==
 
 \* The version strictly increases on every effective change and only then.
 C20_VersionStrict ==
-  [][ /\ (Table' # Table) => version' > version
-      /\ (Table' = Table) => version' = version ]_vars
+  [][ev'.a # "Init" =>
+        /\ (Table' # Table) => version' > version
+        /\ (Table' = Table) => version' = version ]_vars
 \* ... and the reply reports exactly that.
 C20_DvExact ==
   [][ev'.a # "Init" => ev'.res.dv = IF Table' # Table THEN 1 ELSE 0]_vars
